@@ -38,7 +38,7 @@ CHECKS = {
          "exhaustive enumeration of bounded row sequences x all row orders x all chunk cuts on the real converter vs reference map"),
  "C19": ("all 4096 subsets of vest-entry offsets -9..+2 x 5 entry-kind patterns x symbol case x 5 deposit dates, converted by the real converter and compared with a five-line reference look-up",
          "exhaustive enumeration of award-file shapes on the real converter vs reference look-up"),
- "C20": ("every sequence of <= k requests over a 17-request alphabet x every await/pipeline pattern, each in a fresh real `cgt-tool mcp` process: one response per id, body equal to the solo-session answer (itself equal across six fresh servers), alive until EOF, exit 0; every fixture ledger: calculate_report = CLI JSON and explain_matching explains every disposal (all-years and one-year reports)",
+ "C20": ("every sequence of <= k requests over an 18-request alphabet x every await/pipeline pattern, each in a fresh real `cgt-tool mcp` process: one response per id, body equal to the solo-session answer (itself equal across six fresh servers), alive until EOF, exit 0; every fixture ledger: calculate_report = CLI JSON and explain_matching explains every disposal (all-years and one-year reports)",
          "exhaustive enumeration of bounded request sequences x externally controllable schedules on the real server process; differential statelessness oracle"),
  "C12": ("edges prefix -> prefix+suffix: every accepted prefix x every continuation of <= k events dated T+31/T+32/T+45, and growth by 1..40 lines in two layouts; earlier disposals and year totals unchanged, refusals caused by appended dates only",
          "exhaustive enumeration of prefix/continuation edges of the bounded ledger graph on the real code"),
